@@ -10,7 +10,9 @@ import (
 	"bytes"
 	"compress/zlib"
 	"fmt"
+	"regexp"
 	"sort"
+	"strconv"
 	"strings"
 )
 
@@ -66,12 +68,21 @@ func (a *asm) raw(s string) int64 {
 // offPlaceholder is a ten digit integer that is patched once offsets are known.
 func offPlaceholder(tag int) string { return fmt.Sprintf("9%08d9", tag) }
 
-// patch replaces every placeholder by the ten digit offset.
+var placeholderPat = regexp.MustCompile(`9[0-9]{8}9`)
+
+// patchOffsets replaces every placeholder by the ten digit offset (one pass).
 func patchOffsets(data []byte, vals map[int]int64) []byte {
-	for tag, v := range vals {
-		data = bytes.ReplaceAll(data, []byte(offPlaceholder(tag)), []byte(fmt.Sprintf("%010d", v)))
-	}
-	return data
+	return placeholderPat.ReplaceAllFunc(data, func(m []byte) []byte {
+		tag, err := strconv.Atoi(string(m[1:9]))
+		if err != nil {
+			return m
+		}
+		v, ok := vals[tag]
+		if !ok {
+			return m
+		}
+		return []byte(fmt.Sprintf("%010d", v))
+	})
 }
 
 // table writes a classic cross-reference table with one subsection per run
